@@ -116,6 +116,8 @@ def run_group(args) -> List[Dict[str, Any]]:
                 spec["shared_out"] = os.path.join(base, "run1", "shared_out")
                 # ... and on another day, at another time of day
                 spec["clock_shift_days"] = 3
+                # ... each one right after a compilation that was refused
+                spec["refused_before"] = True
             else:
                 # the first run asks for one output per invocation (six compilations of the closure), the second for all at once:
                 # what one back end does to the shared parser must not show in another's output
@@ -235,6 +237,7 @@ def reused_parser_model() -> List[Dict[str, Any]]:
 
     probs = []
     d = core.scratch_dir("c16p")
+    cwd0 = os.getcwd()
     try:
         good = defx.Program({"root.yaml": {"imports": ["lib.yaml"], "message_defs": {"GM": {"id": 4530, "fields": {"s": "GS", "n": "int32"}}}},
                              "lib.yaml": {"constants": {"GK": 3}, "struct_defs": {"GS": {"fields": {"a": "double", "b": "int16[GK]"}}}}})
@@ -244,17 +247,22 @@ def reused_parser_model() -> List[Dict[str, Any]]:
         broot = bad.write(os.path.join(d, "bad"))
         ref = defx.sig_parser(defx.parse_model(groot, import_coredefs=True))
         for history in (("bad",), ("good",), ("bad", "good"), ("bad", "bad")):
+            os.chdir(d)
             pr = PP.Parser(import_coredefs=True)
             for h in list(pr.logger.handlers):
                 pr.logger.removeHandler(h)
             with contextlib.redirect_stdout(io.StringIO()), contextlib.redirect_stderr(io.StringIO()):
                 for step in history:
                     try:
-                        pr.parse(broot if step == "bad" else groot)
+                        pr.parse(os.path.relpath(broot if step == "bad" else groot, d))
                     except PP.ParserError:
                         pass
+                    except Exception as e:
+                        if step == "good":
+                            probs.append({"kind": "reused-parser-rejects-the-closure", "history": list(history[:history.index(step)]), "exc": f"{type(e).__name__}: {str(e)[:120]}"})
                 try:
-                    pr.parse(groot)
+                    # (named the way the caller named it the first time: relative to the directory the process was started in)
+                    pr.parse(os.path.relpath(groot, d))
                 except Exception as e:
                     probs.append({"kind": "reused-parser-rejects-the-closure", "history": list(history), "exc": f"{type(e).__name__}: {str(e)[:120]}"})
                     continue
@@ -267,6 +275,7 @@ def reused_parser_model() -> List[Dict[str, Any]]:
                 probs.append({"kind": "reused-parser-model-differs", "history": list(history), "section": "defs",
                               "missing": sorted(set(ref["defs"]) - set(got["defs"]))[:4], "extra": sorted(set(got["defs"]) - set(ref["defs"]))[:4]})
     finally:
+        os.chdir(cwd0)
         core.rmtree(d)
     return probs
 
